@@ -8,6 +8,8 @@ from .. import iban_rules as R
 
 
 def run(ctx, report):
+    from .premises import accessor_entries, stateless_premise
+    stateless_premise(ctx, report, 'R01-P1-stateless', ['iban-validate'], extra=None, stop=('schwifty.bban.BBAN.validate_national_checksum',), without_national=True, outside=("schwifty.bic",))
     # premise of the symbolic model below (it starts from the cleaned text): the object carries clean(raw), clean removes exactly the
     # whitespace and upper-cases.  A finding here means the statement's "after removing whitespace and upper-casing" is already broken.
     from .c10 import normalisation_rules
